@@ -2,8 +2,8 @@
 //! inputs and call schedules and writes a transcript for the Lean driver (`mzdriver check`).
 //! usage: mzharness <prop> <tier> <seed> <transcript> <result.json> [replay-file]
 mod rng; mod plain; mod sgen; mod tx;
-mod comp;
-mod c01; mod c02; mod c09; mod c10; mod c11; mod c12; mod c15; mod c16;
+mod comp; mod dec; mod eps;
+mod c01; mod c02; mod c03; mod c08; mod c09; mod c10; mod c11; mod c12; mod c15; mod c16;
 
 use tx::Ctx;
 
@@ -23,10 +23,16 @@ fn main() {
         next_id: 0, viol: vec![], counters: Default::default(), samples: vec![], evals: 0,
         nontrivial: Default::default(), scale: std::env::var("VERIF_SCALE").ok().and_then(|s| s.parse().ok()).unwrap_or(1) * if a[2] == "thorough" { 10 } else { 1 }, replay_lines,
     };
-    std::panic::set_hook(Box::new(|_| {}));
+    if std::env::var("VERIF_TRACE_PANIC").is_ok() { std::panic::set_hook(Box::new(|i| { eprintln!("PANIC {}", i); })); } else { std::panic::set_hook(Box::new(|_| {})); }
     match a[1].as_str() {
         "C01" => c01::run(&mut ctx),
         "C02" => c02::run(&mut ctx),
+        "C03" => c03::run(&mut ctx),
+        "C04" => c03::run_c04(&mut ctx),
+        "C05" => c08::run_c05(&mut ctx),
+        "C06" => c03::run_c06(&mut ctx),
+        "C07" => c03::run_c07(&mut ctx),
+        "C08" => c08::run_c08(&mut ctx),
         "C09" => c09::run(&mut ctx),
         "C10" => c10::run(&mut ctx),
         "C11" => c11::run(&mut ctx),
